@@ -20,7 +20,7 @@ TNext ==
                            /\ Same
        [] r.e = "keys"  -> r.res = KeyList(meta) /\ Same
        [] r.e = "val"   -> r.res = Lookup(meta, Keys[r.k].n) /\ Same
-       [] r.e = "head"  -> /\ ~r.null /\ r.pairs = [i \in 1 .. Len(meta) |-> <<meta[i].k, meta[i].v>>] /\ Same          \* the complete document carries the same keys and values, in order
+       [] r.e = "head"  -> /\ ~r.null /\ {r.pairs[i] : i \in 1 .. Len(r.pairs)} = {<<meta[i].k, meta[i].v>> : i \in 1 .. Len(meta)} /\ Len(r.pairs) = Len(meta) /\ Same      \* the complete document carries the same keys and values (each once; their order is not prescribed)
        [] r.e = "upd"   -> meta' = Update(meta, r.k, r.u) /\ nupd' = nupd + 1 /\ UNCHANGED <<doc, body>>
        [] OTHER -> FALSE
 TraceAccepted == TLCGet("stats").diameter = Len(Tr) + 1
